@@ -5,7 +5,7 @@ package checks
 const overlayActive = false
 
 func setMapPerm(f func(n int, site string) []int)                {}
-func setFieldHook(f func(addr uintptr, write bool, site string)) {}
+func setFieldHook(f func(addr uintptr, kind int, site string))  {}
 func setSyncHook(f func(kind int, addr uintptr) int)             {}
 
 const (
